@@ -116,10 +116,11 @@ type c02session struct {
 	Phase0 int // how many ops of the first control batch are sent together with handshake + login
 	Ops    []c02op
 	Name   []byte
+	Banner string // "banner.jpg" or "-" (none): both worlds of a case are configured alike
 }
 
 func c02genSession(rt *rapid.T) c02session {
-	s := c02session{Flow: rapid.SampledFrom([]string{"123", "15"}).Draw(rt, "flow"), Name: []byte("sess")}
+	s := c02session{Flow: rapid.SampledFrom([]string{"123", "15"}).Draw(rt, "flow"), Name: []byte("sess"), Banner: rapid.SampledFrom([]string{"-", "banner.jpg"}).Draw(rt, "banner")}
 	id := uint32(10)
 	nextID := func() uint32 { id++; return id }
 	req := func(i int) hlref.Tran {
@@ -272,7 +273,7 @@ func c02fixture(w *hlsim.World) {
 // Write per message).
 func c02run(rt *rapid.T, s c02session, mk func(kind string) hlsim.Splitter) (o c02obs) {
 	news := "Categories:\n    Seed:\n        Type: [0, 3]\n        Name: Seed\n        Articles: {}\n        SubCats: {}\n"
-	opt := hlsim.Options{Agreement: "the agreement", Board: "old board\r", NewsYAML: news,
+	opt := hlsim.Options{Agreement: "the agreement", Board: "old board\r", NewsYAML: news, BannerFile: s.Banner,
 		Accounts: []hlsim.AccountSpec{acct("admin", "Admin", "adminpw", allAccess), acct("obs", "Obs", "obspw", allAccess)}}
 	inWorld(rt, opt, func(rt *rapid.T, w *hlsim.World) {
 		c02fixture(w)
